@@ -117,11 +117,11 @@ let cmd_espec c =
       let ivs = List.map clip_interval segs in
       let total = List.fold_left (fun acc s -> qred (qplus acc (clip_len s))) qzero segs in
       let somes = List.filter_map (fun x -> x) ivs in
-      let rec pairs l = match l with
-        | [] -> false
-        | a :: r -> List.exists (fun b -> intervals_overlap a b) r || pairs r in
+      let rec pairs l acc = match l with
+        | [] -> acc
+        | a :: r -> pairs r (List.fold_left (fun m b -> qmax m (overlap_len a b)) acc r) in
       out ("g" ^ string_of_int i)
-        (sp [ s_q total; s_bool (pairs somes);
+        (sp [ s_q total; s_q (pairs somes qzero);
               s_list (fun iv -> match iv with
                   | None -> "0"
                   | Some (lo, hi) -> "1 " ^ s_q lo ^ " " ^ s_q hi) ivs ])) groups
